@@ -301,8 +301,8 @@ impl Check for C09 {
     fn assumptions(&self) -> Vec<String> { vec!["sizes and weights are measured on the executed witness with every signature stretched to the documented worst case (72-byte ECDSA element = 73 with its push, 65-byte Schnorr): the library ranks alternatives by assumed sizes, so the structure is the one it would return for such signatures".into()] }
     fn lanes(&self, tier: Tier) -> Vec<(&'static str, usize, usize)> {
         match tier {
-            Tier::Quick => vec![("measure", 10_000, 400), ("stress", 1_500, 200), ("static", 60_000, 300)],
-            Tier::Thorough => vec![("measure", 800_000, 500), ("stress", 60_000, 200), ("static", 5_000_000, 400)],
+            Tier::Quick => vec![("measure", 80_000, 400), ("stress", 12_000, 200), ("static", 480_000, 300)],
+            Tier::Thorough => vec![("measure", 1_600_000, 500), ("stress", 240_000, 200), ("static", 9_600_000, 400)],
         }
     }
     fn run_case(&self, lane: &str, src: &mut Src, rep: &mut Report) -> Result<(), Failure> {
